@@ -43,7 +43,7 @@ def search(ctx, scale, hints):
                 fails.append(('elligator(%x) = %s differs from the specification %s (build %s)' % (r, pyref.aff(c), spec, b),
                               {'build': b, 'script': [lines[i]], 'output': [o], 'spec': list(spec)}, {'class': 'not_spec', 'build': b}))
             o2 = out[n + i]
-            if ',' in o2 and not pyref.coset_eq(pyref.aff(parseE(o2)), pyref.aff(c)):
+            if ',' in o2 and pyref.valid(c) and not pyref.coset_eq(pyref.aff(parseE(o2)), pyref.aff(c)):
                 fails.append(('elligator(-r0) != elligator(r0) for r0 = %x (build %s)' % (r, b), {'build': b, 'script': [lines[i], lines[n + i]], 'output': [o, o2]}, {'class': 'neg', 'build': b}))
         lines = []; meta = []
         for i in range(40 * scale):
